@@ -62,7 +62,7 @@ Lemma cumsum_from_app acc a b :
 Proof.
   revert acc. induction a as [|x r IH]; intros acc; simpl.
   - replace (acc + 0) with acc by ring. destruct b; reflexivity.
-  - rewrite IH. do 3 f_equal. ring.
+  - rewrite IH. replace (acc + (x + sumlist RO r)) with (acc + x + sumlist RO r) by ring. reflexivity.
 Qed.
 (* t of a concatenation: the second part is shifted by the duration of the first *)
 Theorem times_app a b :
